@@ -67,12 +67,13 @@ def quick_core(codes, maxlen=3):
     for j, t in enumerate(seen):
         kind = ('named', 'tuple')[j % 2]
         other = ('tuple', 'named')[j % 2]
-        if j % 3 == 0:
-            out.append(('struct', [(kind, t)]))
-        else:
-            comp = [('unit', []), (other, [t[0], t[2]])]
-            comp.insert(j % 3, (kind, t))
-            out.append(('enum', comp))
+        # every triple as a struct of one kind and as an enum variant of the other kind
+        out.append(('struct', [(kind, t)]))
+        if j % 2 == 0 or j % 3 == 0:
+            out.append(('struct', [(other, t)]))
+        comp = [('unit', []), (kind, [t[0], t[2]])]
+        comp.insert(j % 3, (other, t))
+        out.append(('enum', comp))
     for a in codes:
         out.append(('struct', [('tuple', [a])]))
         out.append(('struct', [('named', [a, codes[0]])]))
